@@ -97,13 +97,13 @@ func c20message(kind string) (*entities.Message, []c20fieldWant) {
 			entities.NewIPAddressInfoElement(c20ie("sourceIPv4Address", 0), net.ParseIP("10.1.2.3").To4()),
 			entities.NewIPAddressInfoElement(c20ie("sourceIPv6Address", 0), net.ParseIP("2001:db8::7")),
 			entities.NewOctetArrayInfoElement(c20ie("ipHeaderPacketSection", 0), []byte{0xde, 0xad, 0xbe, 0xef}),
-			entities.NewStringInfoElement(c20ie("sourcePodName", A), "pod-verif 100%d%20 /a%2Fb %s %%"),
+			entities.NewStringInfoElement(c20ie("sourcePodName", A), "pod-verif 100%d%20 /a%2Fb %s %%\x01\a\x7f\"q\""),
 		}
 		set.AddRecordV2(els, 256)
 		want = []c20fieldWant{{"protocolIdentifier", "17"}, {"sourceTransportPort", "65535"}, {"ingressInterface", "4294967295"}, {"octetDeltaCount", "18446744073709551615"},
 			{"mibObjectValueInteger", "-5"}, {"absoluteError", "1.5"}, {"dataRecordsReliability", "true"}, {"sourceMacAddress", "02:00:00:00:00:09"}, {"interfaceName", "eth-verif"},
 			{"flowStartSeconds", "1700000001"}, {"flowStartMilliseconds", "1700000001234"}, {"sourceIPv4Address", "10.1.2.3"}, {"sourceIPv6Address", "2001:db8::7"},
-			{"ipHeaderPacketSection", "OCTETS"}, {"sourcePodName", "pod-verif 100%d%20 /a%2Fb %s %%"}}
+			{"ipHeaderPacketSection", "OCTETS"}, {"sourcePodName", "pod-verif 100%d%20 /a%2Fb %s %%\x01\a\x7f\"q\""}}
 	case "arrive-two":
 		set.PrepareSet(entities.Data, 257)
 		for r := 0; r < 2; r++ {
